@@ -78,7 +78,13 @@ def judge(H):
                       f"{H['t_quiet'] + H['bound']:.2f}", {"uid": uid, "future": f}))
         if oc == "exception":
             if P["idempotent"]:
-                V.append((f"idempotent_record_failed_by_retriable_faults:{f['exc']}",
+                mech = f"idempotent_record_failed_by_retriable_faults:{f['exc']}"
+                if f["exc"] == "OutOfOrderSequenceNumber":
+                    from vf import produce_sim as _ps
+                    gap = _ps.first_sequence_gap(H).get(f.get("tp"))
+                    if gap and _ps.sent_batch_expired_without_leader(H, f.get("tp"), gap[0], gap[2]):
+                        mech += "_after_sent_batch_expired_without_leader"
+                V.append((mech,
                           f"idempotent producer: accepted record {uid} failed with {f['exc']} although only retriable "
                           "faults were injected", {"uid": uid, "future": f, "fault_hits": H["fault_hits"]}))
             else:
@@ -168,7 +174,16 @@ def nontrivial(H, st):
 def shards(tier, seed):
     n = 16
     per = 40 if tier == "quick" else 600
-    return [{"seed": seed * 104729 + s + 17, "n": per, "timeout_s": 3000} for s in range(n)]
+    return [{"seed": seed * 104729 + s + 17, "n": per, "timeout_s": 3000, "shard_index": s} for s in range(n)]
+
+
+def _pinned(prop, res):
+    import json as _json
+    import os as _os
+    with open(_os.path.join(_os.path.dirname(_os.path.abspath(__file__)), "produce_pinned.json")) as f:
+        out = [dict(e["params"]) for e in _json.load(f) if prop in e["props"]]
+    res["counters"]["pinned_histories"] = len(out)
+    return out
 
 
 def run_shard(params):
@@ -180,6 +195,7 @@ def run_shard(params):
            "samples": []}
     rng = random.Random(params["seed"])
     versions, hits = set(), set()
+    todo = []
     for i in range(params["n"]):
         P = produce_sim.gen_params(rng, i, params.get("tier", "quick"))
         if P["start_seq"] is not None and P["start_seq"] > 2**31 - 100000:
@@ -188,6 +204,10 @@ def run_shard(params):
         P["linger_ms"] = rng.choice([0, 5, 50, 50])      # more multi-record batches
         if params.get("force"):
             P.update(params["force"])
+        todo.append(P)
+    if params.get("shard_index") == 0:
+        todo += _pinned("C02", res)
+    for P in todo:
         H = produce_sim.run_history(P)
         res["evaluations"] += 1
         if H["errors"] or H["sim_errors"] or "t_quiet" not in H:
